@@ -122,7 +122,8 @@ func (r *Reader) newExifBox(b *box) (inner box, err error) {
 }
 
 func readExifHeader(b *box, firstIfd ifds.IfdType, it imagetype.ImageType) (header meta.ExifHeader, err error) {
-	buf, err := b.Peek(16)
+	// (the Tiff header has 8 bytes; a directory without entries follows it with 6)
+	buf, err := b.Peek(8)
 	if err != nil {
 		err = errors.WithMessage(err, "readExifHeader")
 		return
